@@ -49,13 +49,22 @@ type vcKeyDef struct {
 type vcUniverse struct {
 	Name string
 	Keys []vcKeyDef
+	// Batch lists, per key, the choices ("variant name" or "-" for delete) that are combined into
+	// multi-update batches (several KVs in ONE OnUpdates call, as Typha / a start-of-day snapshot does).
+	Batch []vcBatchKey
+}
+
+type vcBatchKey struct {
+	Key     string
+	Choices []string
 }
 
 // vcEv is one event of a history.
 type vcEv struct {
-	Op string // set del flush insync
+	Op string // set del flush insync batch
 	K  int
 	V  int
+	B  []vcEv // batch: the set/del sub-events delivered in one OnUpdates call (distinct keys)
 }
 
 func (u *vcUniverse) show(e vcEv) string {
@@ -64,8 +73,51 @@ func (u *vcUniverse) show(e vcEv) string {
 		return fmt.Sprintf("set(%s=%s)", u.Keys[e.K].Name, u.Keys[e.K].Vars[e.V].Name)
 	case "del":
 		return fmt.Sprintf("del(%s)", u.Keys[e.K].Name)
+	case "batch":
+		parts := make([]string, len(e.B))
+		for i, b := range e.B {
+			parts[i] = u.show(b)
+		}
+		return "batch[" + strings.Join(parts, " ") + "]"
 	}
 	return e.Op
+}
+
+// batchAlphabet is every batch of 2 (all ordered pairs of distinct batch keys) and of 3 (the batch keys
+// in listed and in reversed order) with every combination of the keys' choices.
+func (u *vcUniverse) batchAlphabet() []vcEv {
+	choice := func(bk vcBatchKey, c string) vcEv {
+		if c == "-" {
+			return vcEv{Op: "del", K: u.keyIndex(bk.Key)}
+		}
+		k := u.keyIndex(bk.Key)
+		return vcEv{Op: "set", K: k, V: u.varIndex(k, c)}
+	}
+	var out []vcEv
+	var rec func(keys []vcBatchKey, acc []vcEv)
+	rec = func(keys []vcBatchKey, acc []vcEv) {
+		if len(keys) == 0 {
+			out = append(out, vcEv{Op: "batch", B: append([]vcEv(nil), acc...)})
+			return
+		}
+		for _, c := range keys[0].Choices {
+			rec(keys[1:], append(acc, choice(keys[0], c)))
+		}
+	}
+	n := len(u.Batch)
+	for i := 0; i < n; i++ {
+		for j := 0; j < n; j++ {
+			if i != j {
+				rec([]vcBatchKey{u.Batch[i], u.Batch[j]}, nil)
+			}
+		}
+	}
+	if n >= 3 {
+		fwd := u.Batch[:3]
+		rec(fwd, nil)
+		rec([]vcBatchKey{fwd[2], fwd[1], fwd[0]}, nil)
+	}
+	return out
 }
 
 // alphabet is every set/del of every key plus flush and insync.
@@ -293,6 +345,7 @@ type vcState struct {
 	keyCache string
 	keyed    bool
 	sawDup   bool
+	batches  int // number of batch events applied so far
 }
 
 func (s *vcState) dsString() string {
@@ -338,6 +391,36 @@ func (s *vcState) apply(e vcEv) {
 		}
 		s.ds[e.K] = -1
 		s.delivered = true
+	case "batch":
+		// all sub-events in ONE OnUpdates call; the twin gets the same batch with invalid -> delete
+		var main, twin []api.Update
+		for _, b := range e.B {
+			kd := s.u.Keys[b.K]
+			if b.Op == "del" {
+				up := api.Update{KVPair: model.KVPair{Key: kd.Key}, UpdateType: api.UpdateTypeKVDeleted}
+				main, twin = append(main, up), append(twin, up)
+				s.ds[b.K] = -1
+				continue
+			}
+			vr := kd.Vars[b.V]
+			ut := api.UpdateTypeKVUpdated
+			if s.ds[b.K] < 0 {
+				ut = api.UpdateTypeKVNew
+			}
+			main = append(main, api.Update{KVPair: model.KVPair{Key: kd.Key, Value: vr.Make()}, UpdateType: ut})
+			if vr.Invalid {
+				twin = append(twin, api.Update{KVPair: model.KVPair{Key: kd.Key}, UpdateType: api.UpdateTypeKVDeleted})
+			} else {
+				twin = append(twin, api.Update{KVPair: model.KVPair{Key: kd.Key, Value: vr.Make()}, UpdateType: ut})
+			}
+			s.ds[b.K] = b.V
+		}
+		s.g.vf.OnUpdates(main)
+		if s.twin != nil {
+			s.twin.vf.OnUpdates(twin)
+		}
+		s.delivered = true
+		s.batches++
 	case "flush":
 		s.g.flush()
 		if s.twin != nil {
@@ -394,6 +477,24 @@ func (s *vcState) valid(k int) any {
 
 type vcFreshResult struct {
 	fwd, rev map[string]map[string]string
+	// snap: the whole content delivered as ONE OnUpdates batch (start-of-day snapshot)
+	snap map[string]map[string]string
+}
+
+func (u *vcUniverse) freshSnapshot(ds []int) map[string]map[string]string {
+	g := vcNewGraph()
+	var ups []api.Update
+	for k, v := range ds {
+		if v >= 0 {
+			ups = append(ups, api.Update{KVPair: model.KVPair{Key: u.Keys[k].Key, Value: u.Keys[k].Vars[v].Make()}, UpdateType: api.UpdateTypeKVNew})
+		}
+	}
+	if len(ups) > 0 {
+		g.vf.OnUpdates(ups)
+	}
+	g.insync()
+	g.flush()
+	return g.dp.Objects()
 }
 
 type vcFreshMemo struct {
@@ -428,7 +529,7 @@ func (m *vcFreshMemo) get(s *vcState) *vcFreshResult {
 	if r != nil {
 		return r
 	}
-	r = &vcFreshResult{fwd: s.u.freshRun(s.ds, false), rev: s.u.freshRun(s.ds, true)}
+	r = &vcFreshResult{fwd: s.u.freshRun(s.ds, false), rev: s.u.freshRun(s.ds, true), snap: s.u.freshSnapshot(s.ds)}
 	m.mu.Lock()
 	if old := m.m[id]; old != nil {
 		r = old
@@ -456,6 +557,9 @@ type vcProp struct {
 	QuickDeep []string
 	// QuickBases overrides, per universe, the base states explored in the quick tier.
 	QuickBases map[string][]string
+	// QuickBatchBases names, per universe, the base states from which the batch exploration runs in
+	// the quick tier (thorough: empty, full, dangling, flap for every universe that has batch keys).
+	QuickBatchBases map[string][]string
 	// After is an extra, property-specific sub-check (run once, before the explorations).
 	After func(x *vcRun)
 }
@@ -466,6 +570,9 @@ type vcPlanItem struct {
 	Pre   []string // events applied by New (not part of the explored history)
 	Tree  bool
 	Depth int
+	// Batch: the alphabet additionally holds the universe's multi-update batches; a history contains
+	// at most one batch event (before, between or after single updates).
+	Batch bool
 }
 
 type vcRun struct {
@@ -498,6 +605,13 @@ func (x *vcRun) spec(it vcPlanItem) *hbfs.Spec[*vcState, vcEv] {
 	if it.Tree {
 		mode = "tree"
 	}
+	var withBatches, withBatchesSynced []vcEv
+	if it.Batch {
+		mode = "batch"
+		ba := u.batchAlphabet()
+		withBatches = append(append([]vcEv{}, alpha...), ba...)
+		withBatchesSynced = append(append([]vcEv{}, alpha[:len(alpha)-1]...), ba...)
+	}
 	name := fmt.Sprintf("%s/%s/%s-d%d", u.Name, it.Base, mode, it.Depth)
 	sp := &hbfs.Spec[*vcState, vcEv]{
 		Name: name,
@@ -516,6 +630,12 @@ func (x *vcRun) spec(it vcPlanItem) *hbfs.Spec[*vcState, vcEv] {
 		},
 		Apply: func(s *vcState, e vcEv) { s.apply(e) },
 		Enabled: func(s *vcState, depth int) []vcEv {
+			if it.Batch && s.batches == 0 {
+				if !s.g.inSync {
+					return withBatches
+				}
+				return withBatchesSynced
+			}
 			if !s.g.inSync {
 				return alpha
 			}
